@@ -1,4 +1,5 @@
 import MdsVerif.Proofs.Stack
+import MdsVerif.Proofs.Mlink
 /-!
 # C10 — stack, mlink.List/Queue and ring.Ring preserve their abstract sequence
 
@@ -62,4 +63,130 @@ example :
        .opt (some 2), .opt (some 1), .opt none, .val 0] := by decide
 
 end stack
+/-!
+## mlink.Queue
+
+`C10_queue_fifo`: for every history of `Add, Pop, Clear` with every observation (`Front, Peek n`
+for every integer `n`, `Each` stopped anywhere, `Len, IsEmpty`), on the zero value and on
+`NewQueue()`, the heap model of `mlink.Queue` (list + `back` cursor + `size`) returns exactly what
+a plain FIFO list returns.  In particular no call panics (except `Peek(n<0)`, as documented) and no
+loop runs out of fuel (`hang` is not in the reference's vocabulary).  Invariant: `QInv` — the heap
+is well formed, `back.pred` is the last cell of the chain (so `back` is the end cursor, also after
+the queue was emptied by `Pop` or `Clear`), `size` is the length.
+-/
+section queue
+open MdsVerif.Model MdsVerif.Model.Mlink MdsVerif.Spec MdsVerif.Proofs.Mlink
+
+theorem queue_step_refines (q : Q) (xs : List Nat) (hi : QInv q xs) (op : QOp) :
+    ∃ xs', QInv (qstep q op).1 xs' ∧
+      CursorList.qstep (abs q.h xs) op = (abs (qstep q op).1.h xs', (qstep q op).2) := by
+  obtain ⟨ids, rfl⟩ := xs_cons q.h xs hi.wf
+  cases op with
+  | add v =>
+    obtain ⟨xs', h1, h2, h3⟩ := qadd_inv q _ v hi
+    exact ⟨xs', h1, by simp [qstep, CursorList.qstep, h2, h3]⟩
+  | pop => exact qpop_inv q _ hi
+  | clear =>
+    obtain ⟨h1, h2, h3⟩ := qclear_inv q _ hi
+    exact ⟨[0], h1, by simp [qstep, CursorList.qstep, h2, h3]⟩
+  | front =>
+    refine ⟨_, hi, ?_⟩
+    simp only [qstep, CursorList.qstep, qpeek, Int.lt_irrefl, if_false, Int.toNat_zero,
+      peek_wf q.h ids hi.wf 0, abs, List.tail_cons]
+    cases List.map q.h.val ids <;> simp
+  | peek n =>
+    refine ⟨_, hi, ?_⟩
+    by_cases hn : n < 0
+    · simp [qstep, CursorList.qstep, qpeek, hn]
+    · simp only [qstep, CursorList.qstep, qpeek, hn, if_false, peek_wf q.h ids hi.wf, abs, List.tail_cons]
+      cases (List.map q.h.val ids)[n.toNat]? <;> simp
+  | each k =>
+    refine ⟨_, hi, ?_⟩
+    simp [qstep, CursorList.qstep, each_wf q.h ids hi.wf, abs, List.map_take]
+  | len =>
+    refine ⟨_, hi, ?_⟩
+    have := hi.size
+    simp only [qstep, CursorList.qstep, abs, List.tail_cons, List.length_map, Prod.mk.injEq, true_and,
+      Out.val.injEq, List.length_cons] at this ⊢
+    push_cast at this; omega
+  | isEmpty =>
+    refine ⟨_, hi, ?_⟩
+    have := cell_link q.h [] 0 ids none hi.wf.seg
+    simp only [qstep, CursorList.qstep, abs, List.tail_cons, Mlink.isEmpty, this]
+    cases ids <;> simp
+
+theorem queue_run_refines (q : Q) (xs : List Nat) (hi : QInv q xs) (ops : List QOp) :
+    qrun q ops = CursorList.qrun (abs q.h xs) ops := by
+  induction ops generalizing q xs with
+  | nil => rfl
+  | cons op ops ih =>
+    obtain ⟨xs', h1, h2⟩ := queue_step_refines q xs hi op
+    simp only [qrun, CursorList.qrun, h2]
+    rw [ih _ xs' h1]
+
+/-- **C10 (mlink.Queue)**: every history on the zero value -/
+theorem C10_queue_fifo (ops : List QOp) : qrun {} ops = CursorList.qrun [] ops :=
+  queue_run_refines {} [0] qinv_zero ops
+
+/-- **C10 (mlink.Queue)**: every history on `NewQueue()` -/
+theorem C10_queue_fifo_new (ops : List QOp) : qrun Q.new ops = CursorList.qrun [] ops :=
+  queue_run_refines Q.new [0] qinv_new ops
+
+example :
+    qrun {} [.add 1, .add 2, .pop, .pop, .pop, .add 3, .add 4, .peek 1, .peek (-1), .each 0, .clear, .add 5, .front, .len]
+    = [.unit, .unit, .pair 1 true, .pair 2 true, .pair 0 false, .unit, .unit, .pair 4 true, .panicIndex,
+       .list [3], .unit, .unit, .val 5, .val 1] := by decide
+
+end queue
+
+/-!
+## mlink.Cursor: a stale cursor refuses every further use
+
+A cursor is *stale* when its `pred` entry is self-linked (that is what `Remove`, `Truncate` and
+`Clear` do to the entries they detach: `remove_wf`, `truncate_wf`).  `C10_stale_cursor_refuses`:
+on ANY heap (no well-formedness needed) every `Cursor` method called through a stale cursor
+returns `panic "invalid cursor"` at its first statement, with the heap and the cursor unchanged —
+hence in bounded time and without touching the list.  `C10_stale_step`: the same seen through the
+register machine the driver executes: state unchanged, observation `panic:invalid-cursor`.
+`Add()` with no values is the only call that does not look at the cursor at all.
+-/
+section stale
+open MdsVerif.Model MdsVerif.Model.Mlink MdsVerif.Proofs.Mlink
+
+theorem C10_stale_cursor_refuses (h : Heap) (p : Nat) (hs : h.link p = some p) :
+    atEnd h p = .panic h p ∧ Mlink.get h p = .panic h p ∧ (∀ v, Mlink.set h p v = .panic h p) ∧
+    next h p = .panic h p ∧ (∀ v, push h p v = .panic h p) ∧
+    (∀ v vs, add h p (v :: vs) = .panic h p) ∧ remove h p = .panic h p ∧ truncate h p = .panic h p :=
+  stale_refuses h p hs
+
+/-- every cursor operation of the register machine through a stale cursor: nothing changes, the
+observation is `panic:invalid-cursor` -/
+theorem C10_stale_step (s : St) (c p : Nat) (hc : s.reg c = some p) (hs : s.h.link p = some p) (v : Int)
+    (vs : List Int) :
+    step s (.push c v) = (s, .panicInvalid) ∧ step s (.add c (v :: vs)) = (s, .panicInvalid) ∧
+    step s (.set c v) = (s, .panicInvalid) ∧ step s (.remove c) = (s, .panicInvalid) ∧
+    step s (.truncate c) = (s, .panicInvalid) ∧ step s (.next c) = (s, .panicInvalid) ∧
+    step s (.get c) = (s, .panicInvalid) ∧ step s (.atEnd c) = (s, .panicInvalid) := by
+  obtain ⟨h1, h2, h3, h4, h5, h6, h7, h8⟩ := stale_refuses s.h p hs
+  have e := setReg_self s c p hc
+  refine ⟨?_, ?_, ?_, ?_, ?_, ?_, ?_, ?_⟩ <;>
+    simp only [step, withCursor, hc, h1, h2, h3, h4, h5, h6, h7, h8, e]
+
+/-- **F7 regression**: `Truncate` as it was before the repair (no `checkValid`) exhausts every
+amount of fuel on a stale cursor — the hang that `corpus/C10.mlink/F7.ops` reproduced -/
+theorem C10_F7_unfixed_truncate_diverges (h : Heap) (p : Nat) (hp : p < h.size) (hs : h.link p = some p) :
+    ∀ fuel, truncateUnfixed fuel h p = .hang := by
+  intro fuel
+  simp [truncateUnfixed, hs, invalidate_selfloop p fuel h hp hs]
+
+/-- the F7 scenario on the model as it is now: `[1 2 3 4]`, `c1 = At(1)`, `c2 = At(2)`, `c1.Remove()`,
+then `c2.Truncate()` is refused and `c2.Next()`, `c2.Get()` too; the list is `[1 3 4]` throughout -/
+example :
+    run {} [.end_ 0, .add 0 [1, 2, 3, 4], .at_ 1 1, .at_ 2 2, .remove 1, .truncate 2, .next 2, .get 2,
+      .each 10, .get 1]
+    = [.unit, .unit, .unit, .unit, .val 2, .panicInvalid, .panicInvalid, .panicInvalid,
+       .list [1, 3, 4], .val 3] := by decide
+
+end stale
+
 end MdsVerif.Props.C10
